@@ -13,7 +13,9 @@ OBLIGATIONS = ["maxsum_factor_marginal_partial", "maxsum_select_value_partial", 
                "amaxsum_leafs_silent", "amaxsum_tree_exact_refuted", "maxsum_tree_exact_default_stability_refuted",
                "isolated_variable_initial_value_refuted",
                "maxsum_graph_ok", "maxsum_algo_ok", "maxsum_refines_rounds", "maxsum_suppression_lifted",
-               "maxsum_tree_messages", "maxsum_tree_select", "maxsum_tree_exact"]
+               "maxsum_tree_messages", "maxsum_tree_select", "maxsum_tree_exact",
+               "amaxsum_spoken_ok_all", "amaxsum_basic_invariants", "amaxsum_edge_consistent",
+               "amaxsum_quiescent_fixed_point", "amaxsum_fixed_point_exact", "amaxsum_tree_exact"]
 N_QUICK, N_THOROUGH = 250, 3000
 PARALLEL = 8
 SHARD = 20
@@ -31,7 +33,9 @@ MODELLED = ("factor_costs_for_var, costs_for_factor, select_value, apply_damping
             "and amaxsum.py are modelled (M_MaxSum.v), hosted by the C08 mixin model resp. directly by Net.v. "
             "Theorems: see OBLIGATIONS / design_notes/C05.md. The correspondence replays the recorded schedule "
             "in the model and compares every message table (exact rationals), every value selection with its cost, "
-            "every on_new_cycle call, the final cycle counters and the in-flight messages.")
+            "every on_new_cycle call, the final cycle counters and the in-flight messages; for amaxsum the edge "
+            "invariant of the proof (pending table = _prev_messages entry = table recomputed from the sender's "
+            "current costs) is checked on the real objects.")
 META = dict(
     level_text=("Synchronous Max-Sum: full proof (Coq), for all well-formed DCOPs, sizes, arities, min and max, any "
                 "start_messages and EVERY schedule of the asynchronous network: on a factor graph that is a forest of "
@@ -42,16 +46,25 @@ META = dict(
                 "(maxsum_refines_rounds, from C08's sync_round_inputs); the SAME_COUNT cut-off never changes what a "
                 "receiver holds (maxsum_suppression_lifted); the message on an edge is the exact min/max-marginal of "
                 "the subtree behind it up to a constant (maxsum_tree_messages); value selection is the optimum "
-                "(maxsum_tree_select). A-Max-Sum: partial - the local lemmas (factor marginal, select_value, "
-                "variable message, exact-repeat suppression) and, for every schedule, the start_messages=leafs "
-                "silence theorem. Refuted with machine-checked witnesses on the code as it is (known findings): "
+                "(maxsum_tree_select). Asynchronous A-Max-Sum: full proof for start_messages leafs_vars / all "
+                "(spoken_ok), stability 0, damping 0, EVERY schedule: at quiescence the selected assignment is the "
+                "unique optimum (amaxsum_tree_exact). Chain: basic invariants of all reachable configurations "
+                "(amaxsum_basic_invariants); edge consistency - the last message on every edge, whether delivered, in "
+                "flight, buffered before start or withheld as an exact repeat by the SAME_COUNT block, is the table "
+                "its sender computes from what it holds now (amaxsum_edge_consistent); hence a quiescent "
+                "configuration solves the message equations (amaxsum_quiescent_fixed_point) and on a forest every "
+                "solution is the exact min/max-marginal (amaxsum_fixed_point_exact). The default "
+                "start_messages=leafs is refuted (deadlock) and characterised for every schedule "
+                "(amaxsum_leafs_silent). Refuted with machine-checked witnesses on the code as it is (known findings): "
                 "A-Max-Sum with the default start_messages deadlocks on a 3-variable chain; synchronous Max-Sum with "
                 "the default stability 0.1 freezes a changing message on a 4-variable chain; an isolated variable "
                 "keeps its initial value. The correspondence run replays every schedule in the model (all message "
                 "tables and selections compared exactly), checks the brute-force optimum on every complete run of a "
                 "forest instance and - independently evaluating the hypotheses of maxsum_tree_exact on the real run, "
                 "also on cut runs - as soon as every computation exceeds the forest height; it also checks that the "
-                "theorem's forest predicate agrees with the harness's union-find/BFS forest height on every graph."),
+                "theorem's forest predicate agrees with the harness's union-find/BFS forest height on every graph. "
+                "The invariant of amaxsum_edge_consistent is evaluated on the REAL amaxsum objects at the end of every "
+                "run with stability 0 / damping 0 / start leafs_vars|all (complete or cut, forest or cyclic)."),
     level_note=("Trusted: Coq kernel/vm_compute, M_MaxSum.v + M_SyncMixin.v + Net.v as a rendering of the Python "
                 "code, the thread-free netdriver. Costs are exact dyadic rationals in generated cases (integer "
                 "tables, power-of-two domain sizes); float rounding is outside the model. Message tables are "
@@ -461,7 +474,40 @@ def run_impl(c):
     cycles = [[n, comps[n].current_cycle] for n in sorted(comps)] if sync else []
     return dict(sched=drv.schedule, log=log, sends=sends, sels=sels, values=values, cycles=cycles,
                 inflight=inflight, complete=complete, frozen=frozen, silent=sorted(silent), policy=policy,
-                started=sorted(drv.started))
+                started=sorted(drv.started), edge_bad=[] if sync else _edge_consistency(comps, drv, MS))
+
+
+def _edge_consistency(comps, drv, MS):
+    """The invariant of the Coq theorem amaxsum_edge_consistent, evaluated on the REAL objects at the end of the run
+    (complete or cut, forest or cyclic).  For every edge a->b with a started: pend = the table b will hold for a
+    once everything queued from a to b is handled (last message buffered by b before its start / still in the
+    channel, else b's _costs entry).  (1) an entry of a._prev_messages for b equals pend; (2) if a may speak (a
+    variable; a factor holding a table of every variable of its scope) pend equals the table a computes NOW from
+    the costs it holds (recomputed with the real costs_for_factor / factor_costs_for_var; floats compared
+    exactly: the table was produced by the same function on the same inputs).  Returns the violating edges."""
+    bad = []
+    for name, comp in comps.items():
+        if name not in drv.started:
+            continue
+        if name[0] == "v":
+            nbs = [(f, None) for f in comp._factors]
+            speaks = True
+        else:
+            nbs = [(v.name, v) for v in comp.variables]
+            speaks = len(comp._costs) == len(comp.factor.dimensions)
+        for nb, v in nbs:
+            queue = [m for (s, m, _t) in comps[nb]._paused_messages_recv if s == name and m.type == "max_sum"]
+            queue += [m for m in drv.chans.get((name, nb), []) if m.type == "max_sum"]
+            pend = queue[-1].costs if queue else comps[nb]._costs.get(name)
+            prev = comp._prev_messages.get(nb, (None, 0))[0]
+            if prev is not None and prev != pend:
+                bad.append([name, nb, "prev"])
+            if speaks:
+                now = MS.costs_for_factor(comp.variable, nb, comp._factors, comp._costs) if v is None else \
+                    MS.factor_costs_for_var(comp.factor, v, comp._costs, comp.mode)
+                if now != pend:
+                    bad.append([name, nb, "now"])
+    return bad
 
 
 # ------------------------------------------------------------------ oracle
@@ -491,10 +537,17 @@ def exact_by_theorem(c, o):
     return all(k >= h + 1 for n, k in o["cycles"] if n not in lonely)
 
 
+def async_theorem_params(c):
+    """parameter hypotheses of amaxsum_edge_consistent / amaxsum_tree_exact: stability 0, damping 0, spoken_ok"""
+    return c["algo"] == "amaxsum" and c["stab"] == "0" and c["damp"] == "0" and c["start"] in ("leafs_vars", "all")
+
+
 def oracle(c, o):
     for e in o["log"]:
         if e[0] == "raise":
             return "handler raised %s at %s: %s" % (e[2], e[1], e[3])
+    if async_theorem_params(c) and o.get("edge_bad"):
+        return "edge-consistency (amaxsum_edge_consistent) violated on the real run at %s" % o["edge_bad"][:4]
     if not (applicable(c, o) or exact_by_theorem(c, o)):
         return None
     arg, best = _brute(c)
@@ -605,6 +658,11 @@ def histogram(cases, obs):
         inc("nvars_%d" % len(c["vars"]))
         if "sched" in o:
             inc("oracle_applicable" if (applicable(c, o) or exact_by_theorem(c, o)) else "model_validation_only")
+            if async_theorem_params(c):
+                inc("async_edge_invariant_checked")
+                used = {v for f in c["facs"] for v in f["scope"]}
+                if applicable(c, o) and not any(i not in used and v["init"] is not None for i, v in enumerate(c["vars"])):
+                    inc("async_theorem_hypotheses_met")
             if exact_by_theorem(c, o):
                 inc("theorem_hypotheses_met")
                 if not o.get("complete"):
